@@ -26,7 +26,7 @@ def gate():
             bad.append('%s: %s' % (f, m.group(0)))
     return bad
 
-def check_property(prop, timeout=1200):
+def check_property(prop, timeout=600):
     """Returns dict(ok, obligations, discharged, theorems, assumptions, log, checker_cmd)."""
     pf = 'Properties_%s.v' % prop
     res = dict(ok=False, obligations=0, discharged=0, theorems=[], assumptions={}, log='', checker_cmd='')
